@@ -219,11 +219,40 @@ theorem shift_runs_on_upper_qubits (I : R) (k lo : Nat) (hlo : lo < 2 ^ k) (gs :
   run_shift I k lo hlo gs w
 
 omit [StarRing R] in
-/-- **`VarQEC(encode, K, …).get_code()` returns the code words of `generate_code_np(encode, K)`**: row `a < K` of the model
-of `get_code` (encoder shifted by `⌈log2 K⌉`, applied to `Σ_a |a⟩⊗|a⟩`, sliced) is `codeword a` — any `K`. -/
-theorem varqec_get_code_is_generate_code_np (I : R) (c : Code) (K a : Nat) (ha : a < K) :
+/-- **`VarQEC(encode, K, …).get_code()` returns the code words of `generate_code_np(encode, K)`**: for `1 ≤ K ≤ 2^n`
+(the range in which the real object exists: for `K > 2^n` writing the diagonal `q0[a, a] = 1` raises `IndexError`, which the
+driver op `varqec` mirrors and the harness ties) row `a < K` of the model of `get_code` (encoder shifted by `⌈log2 K⌉`, applied
+to `Σ_a |a⟩⊗|a⟩`, sliced) is `codeword a`, for `K` a power of two or not.  (`hK` is the guard of the real code; the identity
+itself does not need it.) -/
+theorem varqec_get_code_is_generate_code_np (I : R) (c : Code) (K a : Nat) (_hK : K ≤ 2 ^ c.n) (ha : a < K) :
     varqecCode I c K a = codeword I c a :=
   varqecCode_eq_codeword I c K a ha
+
+/-- **what the driver op `varqec` evaluates is `varqecCode`**: the shifted encoder fits on the `n + ⌈log2 K⌉` qubit register
+(`gateOk` for every shifted gate), so the tabulated run of the driver is the proved `run`, and its entry at position
+`posOfIdx kl a + 2^kl · hi` is `varqecCode GInt.I c K a hi` (for `hi < 2^n`, `a < 2^kl`). -/
+theorem varqec_driver_evaluates_model (c : Code) (hc : c.encode.all (gateOk c.n) = true) (K : Nat) :
+    (c.encode.map (Gate.shift (ceilLog2 K))).all (gateOk (c.n + ceilLog2 K)) = true ∧
+    runTab (c.n + ceilLog2 K) (c.encode.map (Gate.shift (ceilLog2 K))) (tabulate (c.n + ceilLog2 K) (varqecInit c.n (ceilLog2 K) K))
+      = tabulate (c.n + ceilLog2 K) (fun pos => run GInt.I (c.encode.map (Gate.shift (ceilLog2 K))) (varqecInit c.n (ceilLog2 K) K) pos) :=
+  ⟨allOk_shift c.n _ c.encode hc, runTab_eq _ _ (allOk_shift c.n _ c.encode hc) _⟩
+
+/-- **the listed strings are independent**: `listedIndepCheck` says that there are at most `n − log2 K` of them
+(`K = 2^k`) and that no non-empty sub-product is a scalar.  Together with `listedCheck` (each is a product, sign `+1`, of the
+`n − log2 K` generators `U Z_j U†`) the `m` listed strings generate a subgroup of order `2^m` of the stabilizer group: the whole
+group when `m = n − log2 K` (the number listed per shipped code is pinned in `C19Coverage.lean`). -/
+theorem listed_independent (c : Code) (h : listedIndepCheck c = true) :
+    2 ^ Nat.log2 c.K = c.K ∧ c.listed.length ≤ c.n - Nat.log2 c.K ∧
+    ∀ mask, 0 < mask → mask < 2 ^ c.listed.length →
+      (subsetProd (c.listed.map MP.ofSyms) mask).x ≠ 0 ∨ (subsetProd (c.listed.map MP.ofSyms) mask).z ≠ 0 := by
+  unfold listedIndepCheck independent at h
+  simp only [MP.forceList_eq, MP.force_eq, Bool.and_eq_true, beq_iff_eq, List.all_eq_true, List.mem_range,
+    List.length_map, Bool.or_eq_true, bne_iff_ne, ne_eq, Code.logK] at h
+  obtain ⟨⟨⟨⟨h1, _⟩, h3⟩, _⟩, h5⟩ := h
+  refine ⟨h1, of_decide_eq_true h3, fun mask h0 hm => ?_⟩
+  rcases h5 mask hm with h | h
+  · omega
+  · exact h
 
 /-! ### what the driver executes is the model the theorems are about -/
 
@@ -256,6 +285,14 @@ theorem code883_listed : listedCheck code883 = true := by decide +kernel
 theorem code8_64_2_listed : listedCheck code8_64_2 = true := by decide +kernel
 theorem code10_4_4_listed : listedCheck code10_4_4 = true := by decide +kernel
 
+theorem code523_listedIndep : listedIndepCheck code523 = true := by decide +kernel
+theorem code422_listedIndep : listedIndepCheck code422 = true := by decide +kernel
+theorem code442_listedIndep : listedIndepCheck code442 = true := by decide +kernel
+theorem code642_listedIndep : listedIndepCheck code642 = true := by decide +kernel
+theorem code883_listedIndep : listedIndepCheck code883 = true := by decide +kernel
+theorem code8_64_2_listedIndep : listedIndepCheck code8_64_2 = true := by decide +kernel
+theorem code10_4_4_listedIndep : listedIndepCheck code10_4_4 = true := by decide +kernel
+
 theorem code523_stabCirc : stabCircImplCheck code523 = true := by decide +kernel
 theorem code422_stabCirc : stabCircImplCheck code422 = true := by decide +kernel
 theorem code442_stabCirc : stabCircImplCheck code442 = true := by decide +kernel
@@ -280,6 +317,8 @@ theorem code10_4_4_holds : Holds code10_4_4 := holds_of_checks _ code10_4_4_klCh
 example : klCheck ⟨"no encoder", 5, 2, 3, [], [], []⟩ = false := by decide +kernel
 /-- … a wrong listed string … -/
 example : listedCheck { code523 with listed := [[1, 0, 2, 1, 3]] } = false := by decide +kernel
+/-- … a listed string replaced by a copy of another one (each still fixes the code words: `listedCheck` holds) … -/
+example : listedIndepCheck { code523 with listed := code523.listed.take 3 ++ code523.listed.take 1 } = false := by decide +kernel
 /-- … a stabilizer circuit that is not its listed string (here: a different gate) … -/
 example : stabCircImplCheck { code422 with stabCircs := [[.x 0, .x 1], [.z 0, .x 1, .z 2, .z 3], [.x 2, .x 3]] } = false := by
   decide +kernel
